@@ -9,6 +9,7 @@ import Grevm.Driver.Repr
 import Grevm.Driver.Small
 import Grevm.Driver.Reserve
 import Grevm.Driver.CacheConf
+import Grevm.Driver.AcctConf
 
 open Grevm Grevm.Driver
 
@@ -108,6 +109,7 @@ def runSession (lines : List String) : String :=
       | ["adapter"] => Small.replayAdapter rest
       | ["reserve"] => ReserveConf.replayReserve rest
       | "cache" :: hd => CacheConf.replayCache hd rest
+      | ["acct"] => AcctConf.replayAcct rest
       | ["kernel", "wait"] => Small.replayWait rest
       | ["once", k] => Small.replayOnce (k.toNat?.getD 0) rest
       | ["sched", n] => SchedConf.replaySched (n.toNat?.getD 0) rest
